@@ -324,7 +324,7 @@ def spec_graph(chk, oneshot, label):
     tlc.require_ok(res, "RpycServer")
     if res.violation:
         raise tlc.MachineryError("RpycServer violates " + res.violation)
-    chk.add_tlc(res, "RpycServer (%s): 2 good + 2 bad clients, 8 misbehaviours, close at any point" % ("one-shot" if oneshot else "multi-client"))
+    chk.add_tlc(res, "RpycServer (%s): 2 good + 2 bad clients, 9 misbehaviours, close at any point" % ("one-shot" if oneshot else "multi-client"))
     g = tlc.load_dot(os.path.join(d, "graph.dot"))
     shutil.rmtree(d, ignore_errors=True)
     return g
